@@ -178,107 +178,69 @@ def stmt_yields(s):
 
 
 def tags_of(body):
-    """feature tags used for reporting and for matching known findings"""
+    """feature tags used for reporting and for matching known findings (computed on the generator's
+    own AST; positions are tracked explicitly because equal tuples may be the same object)"""
     tags = set()
 
-    def f(s, ctx, lst, i):
-        k = s[0]
-        if k == "break":
-            # innermost breakable
-            inner = None
-            for c in reversed(ctx):
-                if c[0] in ("switch", "for"):
-                    inner = c
-                    break
-            if inner is not None and inner[0] == "switch" and stmt_yields(inner[1]):
-                # a break belonging to a yielding switch, placed after a yield-containing statement
-                # of the same clause (at any nesting level between the clause and the break)
-                tags.add("break-in-yielding-switch")
-                # find the clause body list chain: check preceding siblings at each level up to the switch
-                after = False
-                # preceding siblings in the same list
-                if any(stmt_yields(x) for x in lst[:i]):
-                    after = True
-                # enclosing statements within the clause: their preceding siblings
-                cur_ctx = list(ctx)
-                # walk up: we do not keep parent lists, so approximate with "any yield textually before
-                # the break inside the same clause"
-                clause_body = None
-                sw = inner[1]
-                bodies = [b for _, b in sw[3]] + ([sw[4]] if sw[4] is not None else [])
-                for b in bodies:
-                    if _contains_node(b, s):
-                        clause_body = b
-                if clause_body is not None and _yield_before(clause_body, s):
-                    after = True
-                if after:
-                    tags.add("break-in-yielding-switch-after-yield")
-        if k == "continue":
-            for c in reversed(ctx):
-                if c[0] == "for":
-                    fs = c[1]
-                    if fs[0] == "for" and fs[3] is not None and fs[3][0] in ("yield", "yieldfrom"):
-                        tags.add("continue+yielding-post")
-                    break
-        if k == "for" and s[3] is not None and s[3][0] in ("yield", "yieldfrom"):
-            tags.add("yielding-post")
-        if k == "for" and s[1] is not None and s[1][0] in ("yield", "yieldfrom"):
-            tags.add("yielding-init")
-        if k == "switch" and stmt_yields(s):
-            tags.add("yielding-switch")
-            if s[4] is None:
-                tags.add("yielding-switch-no-default")
-        if k == "yieldfrom":
-            tags.add("yieldfrom")
-
-    walk(body, f)
-    return tags
-
-
-def _contains_node(stmts, node):
-    found = [False]
-
-    def f(s, ctx, lst, i):
-        if s is node:
-            found[0] = True
-
-    walk(stmts, f)
-    return found[0]
-
-
-def _yield_before(stmts, node):
-    """True if some yield-containing statement precedes `node` in a pre-order walk of stmts, at a
-    position that is sequentially before it (a preceding sibling of node or of an ancestor)."""
-    res = [False]
-
-    def rec(lst):
-        # returns True if node found in lst (possibly nested)
-        for i, s in enumerate(lst):
-            if s is node:
-                if any(stmt_yields(x) for x in lst[:i]):
-                    res[0] = True
-                return True
-            subs = []
+    def rec(lst, levels):
+        # levels: enclosing statement lists, innermost last: [owner_kind, owner_node, yield_precedes]
+        pre = False
+        for s in lst:
             k = s[0]
+            here = levels + [[None, None, pre]]
+            if k == "break":
+                # innermost breakable construct
+                idx = None
+                for j in range(len(levels) - 1, -1, -1):
+                    if levels[j][0] in ("switch", "for"):
+                        idx = j
+                        break
+                if idx is not None and levels[idx][0] == "switch" and stmt_yields(levels[idx][1]):
+                    tags.add("break-in-yielding-switch")
+                    # a yield-containing statement precedes the break inside the same clause, at the
+                    # level of the break or of any enclosing statement up to the clause
+                    after = pre or any(l[2] for l in levels[idx:])
+                    if after:
+                        tags.add("break-in-yielding-switch-after-yield")
+            if k == "continue":
+                for j in range(len(levels) - 1, -1, -1):
+                    if levels[j][0] == "for":
+                        fs = levels[j][1]
+                        if fs[0] == "for" and fs[3] is not None and fs[3][0] in ("yield", "yieldfrom"):
+                            tags.add("continue+yielding-post")
+                        break
+            if k == "for" and s[3] is not None and s[3][0] in ("yield", "yieldfrom"):
+                tags.add("yielding-post")
+            if k == "for" and s[1] is not None and s[1][0] in ("yield", "yieldfrom"):
+                tags.add("yielding-init")
+            if k == "switch" and stmt_yields(s):
+                tags.add("yielding-switch")
+                if s[4] is None:
+                    tags.add("yielding-switch-no-default")
+            if k == "yieldfrom":
+                tags.add("yieldfrom")
+            # recurse; the entry for the *current* list records whether a yield precedes s in it
+            cur = levels[:-1] + [[levels[-1][0], levels[-1][1], pre]] if levels else []
             if k == "block":
-                subs = [s[1]]
+                rec(s[1], cur + [["block", s, False]])
             elif k == "if":
-                subs = [s[2]] + ([s[3]] if s[3] is not None else [])
+                rec(s[2], cur + [["if", s, False]])
+                if s[3] is not None:
+                    rec(s[3], cur + [["if", s, False]])
             elif k in ("switch", "tswitch"):
-                subs = [b for _, b in s[3]] + ([s[4]] if s[4] is not None else [])
+                for _, bdy in s[3]:
+                    rec(bdy, cur + [["switch", s, False]])
+                if s[4] is not None:
+                    rec(s[4], cur + [["switch", s, False]])
             elif k == "for":
-                subs = [s[4]]
+                rec(s[4], cur + [["for", s, False]])
             elif k == "range":
-                subs = [s[5]]
-            for sub in subs:
-                if rec(sub):
-                    if any(stmt_yields(x) for x in lst[:i]):
-                        res[0] = True
-                    return True
-        return False
+                rec(s[5], cur + [["for", s, False]])
+            if stmt_yields(s):
+                pre = True
 
-    rec(stmts)
-    return res[0]
+    rec(body, [["func", None, False]])
+    return tags
 
 
 # ---------------------------------------------------------------------------------------------
@@ -563,6 +525,16 @@ class Sampler:
             return [("block", sub(in_loop, in_switch))]
         if k == "FOR":
             v = ctr.var()
+            r = rng.random()
+            if r < 0.25:
+                # assignment-style init on a variable that already holds another value
+                return [("decl", v, "7"), ("for", ("assign", v, "0"), "%s < n" % v, ("inc", v), sub(True, False, loopvars + [v])), ("effv", 3, v)]
+            if r < 0.35:
+                # call init (neither define nor yield)
+                return [("decl", v, "0"), ("for", ("eff", ctr.eff()), "%s < n" % v, ("inc", v), sub(True, False, loopvars + [v]))]
+            if r < 0.45:
+                # countdown with assignment init
+                return [("decl", v, "0"), ("for", ("assign", v, "n"), "%s > 0" % v, ("raw", "%s--" % v), sub(True, False, loopvars + [v]))]
             return [("for", ("decl", v, "0"), "%s < n" % v, ("inc", v), sub(True, False, loopvars + [v]))]
         if k == "WHILE":
             v = ctr.var()
@@ -1334,13 +1306,23 @@ def c06_consumer(rng, shape):
         return head + "\tit := %s\n\tnext := func() (int, bool) {\n\t\tok := it.MoveNext()\n\t\treturn it.Current(), ok\n\t}\n\tfor k := 0; k < 3; k++ {\n\t\tv, ok := next()\n\t\tif !ok {\n\t\t\tbreak\n\t\t}\n%s\n\t}\n" % (src, indent(c06_loop_body(rng, "v", allow_return=True), 2)) + tail
     if shape == "generic_take":
         return head + "\txs := take@(%s, n+1)\n\tt = sum@(xs)\n\tys := take@(mapIt@(%s, func(x int) int { return x*2 + a }), 2)\n\tt = (t << 1) ^ sum@(ys)\n" % (src, fin) + tail
+    if shape == "field_reassigned_in_loop":
+        return head + "\tbx := box@{it: %s, base: b}\n\tfor v := range bx.it {\n%s\n\t\tif v > a {\n\t\t\tbx.it = %s\n\t\t}\n\t}\n\tfor w := range bx.it {\n\t\tt = (t << 1) ^ w\n\t\tlim++\n\t\tif lim > 6 {\n\t\t\tbreak\n\t\t}\n\t}\n" % (fin, indent(c06_loop_body(rng, "v", allow_return=False), 2), rng.choice(["GC@(b, a)", "GA@(b, n)"])) + tail
+    if shape == "index_changed_in_loop":
+        return head + "\tits := []Iter[int]{%s, %s}\n\ti := 0\n\tfor v := range its[i] {\n%s\n\t\ti = 1\n\t}\n\tfor w := range its[1] {\n\t\tt = (t << 1) ^ w\n\t\tlim++\n\t\tif lim > 6 {\n\t\t\tbreak\n\t\t}\n\t}\n" % (fin, rng.choice(["GC@(b, a)", "GA@(b, n)"]), indent(c06_loop_body(rng, "v", allow_return=False), 2)) + tail
+    if shape == "map_entry_reassigned_in_loop":
+        return head + "\tm := map[int]Iter[int]{1: %s, 2: %s}\n\tfor v := range m[1] {\n%s\n\t\tm[1] = m[2]\n\t}\n\tfor w := range m[2] {\n\t\tt = (t << 1) ^ w\n\t\tlim++\n\t\tif lim > 6 {\n\t\t\tbreak\n\t\t}\n\t}\n" % (fin, rng.choice(["GC@(b, a)", "GA@(b, n)"]), indent(c06_loop_body(rng, "v", allow_return=False), 2)) + tail
+    if shape == "operand_evaluated_once":
+        return ("func mk@(x int) Iter[int] {\n\trt.Emit(rt.EFF, 690)\n\treturn GC@(x, 1)\n}\n\n" +
+                head + "\tfor v := range mk@(a) {\n%s\n\t}\n" % indent(c06_loop_body(rng, "v"), 2) + tail)
     if shape == "param_pass":
         return ("func drain@(it Iter[int], lim int, g bool) int {\n\tt := 0\n\tfor v := range it {\n\t\tt = (t << 1) ^ v\n\t\tlim--\n\t\tif lim <= 0 || (g && v > 5) {\n\t\t\tbreak\n\t\t}\n\t}\n\treturn t\n}\n\n" +
                 head + "\tit := %s\n\tt = drain@(it, 2, g1)\n\trt.Emit(46, t)\n\tt = (t << 1) ^ drain@(it, 2, g2)\n" % src + tail)
     raise ValueError(shape)
 
 
-C06_SHAPES = ["range_define", "range_assign", "nested", "pull_then_range", "range_then_pull", "struct_field", "map_slice", "closure_pull", "generic_take", "param_pass"]
+C06_SHAPES = ["range_define", "range_assign", "nested", "pull_then_range", "range_then_pull", "struct_field", "map_slice", "closure_pull", "generic_take", "param_pass",
+              "field_reassigned_in_loop", "index_changed_in_loop", "map_entry_reassigned_in_loop", "operand_evaluated_once"]
 
 
 def c06_programs(rng, per_shape):
@@ -1368,6 +1350,8 @@ func (p *pt@) Shift(d int)  { p.x += d; p.y -= d }
 func (p *pt@) Add(d int) int { p.x += d; return p.x }
 func idg@[T any](x T) T     { return x }
 func dbl@(x int) int        { return x + x }
+func sub@(x, y int) int     { return x - y }
+func join3@(x, y, z int) int { return (x << 2) ^ (y << 1) ^ z }
 
 const k@ = 7
 
@@ -1385,6 +1369,10 @@ C13_BODIES = [
     ("eta_ptr_receiver_nil_first", "var cur *pt@\nadd := func(d int) int { return cur.Add(d) }\ncur = &pt@{a, 0}\nreturn add(b)"),
     ("eta_field_func", "type holder struct{ f func(int) int }\nh := holder{f: func(x int) int { return x + 1 }}\ncall := func(x int) int { return h.f(x) }\nr := call(a)\nh.f = func(x int) int { return x + 2 }\nreturn (r << 4) ^ call(a)"),
     ("eta_iface_method", "var sm interface{ Sum() int } = pt@{a, 1}\nget := func() int { return sm.Sum() }\nr := get()\nsm = pt@{b, 2}\nreturn (r << 4) ^ get()"),
+    ("eta_permuted", "flip := func(x, y int) int { return sub@(y, x) }\nsame := func(x, y int) int { return sub@(x, y) }\nreturn (flip(a, b) << 8) ^ same(a, b)"),
+    ("eta_duplicated", "dup := func(x, y int) int { return sub@(y, y) }\nfst := func(x, y int) int { return dbl@(x) }\nreturn (dup(a, b) << 8) ^ fst(a, b)"),
+    ("eta_rotated3", "rot := func(x, y, z int) int { return join3@(z, x, y) }\nreturn rot(a, b, a + b)"),
+    ("eta_grouped_params", "g := func(x, y int) int { return sub@(x, y) }\nh := func(x int, y int) int { return sub@(x, y) }\nreturn (g(a, b) << 8) ^ h(b, a)"),
     ("eta_builtin", "ln := func(s []int) int { return len(s) }\nreturn ln(tbl@) + a"),
     ("eta_conversion", "cv := func(x int) int32 { return int32(x) }\nreturn int(cv(a)) + b"),
     ("eta_generic_inferred", "f := func(x int) int { return idg@(x) }\nreturn f(a) + b"),
@@ -1457,6 +1445,9 @@ def c12_injections():
     I.append(("range_ptr_array_noyield", [("raw", "pa := [3]int{a, b, a + b}\npt := 0\nfor pi, pv := range &pa {\n\tpt += pv + pi\n}"), Y("pt + 917")]))
     I.append(("yield_in_if_init", [("raw", "if Yield(a + 918); g3 {\n\tYield(b + 919)\n}")]))
     I.append(("yield_in_if_init_trivial_body", [("raw", "if Yield(a + 920); g3 {\n\trt.Emit(rt.EFF, 921)\n}")]))
+    I.append(("yield_in_elseif_init", [("raw", "if g3 {\n\trt.Emit(rt.EFF, 960)\n} else if Yield(a + 961); g2 {\n\tYield(b + 962)\n}")]))
+    I.append(("yield_in_elseif_init_after_yielding_if", [("raw", "if g3 {\n\tYield(a + 963)\n} else if Yield(a + 964); g2 {\n\trt.Emit(rt.EFF, 965)\n} else {\n\tYield(b + 966)\n}")]))
+    I.append(("yield_in_nested_else_if_init", [("raw", "if g3 {\n\trt.Emit(rt.EFF, 967)\n} else {\n\tif Yield(a + 968); g2 {\n\t\tYield(b + 969)\n\t}\n}")]))
     I.append(("yield_in_switch_init", [("raw", "switch Yield(a + 922); {\ncase g3:\n\tYield(b + 923)\n}")]))
     I.append(("go_yield", [("raw", "go Yield(a + 924)"), Y("b + 925")]))
     I.append(("yield_in_case_expr_call", [("raw", "switch {\ncase func() bool { rt.Emit(rt.EFF, 926); return g3 }():\n\tYield(a + 927)\n}")]))
